@@ -80,7 +80,8 @@ def mutate_votes(rng, cs, v, how=None):
 
 
 def gen_case(rng, max_cards=40, audit_types=None, allow_style_off=True, max_rounds=5, kinds=None,
-             force_fault_free=None, max_contests=4, pooled=True):
+             force_fault_free=None, max_contests=4, pooled=True, p_shortfall=0.1, rates=None,
+             homogeneous_when_style_off=True):
     audit_type = rng.wpick(audit_types or [(W.COMPARISON, 5), (W.ONEAUDIT, 3), (W.POLLING, 2)])
     ncards = rng.randint(1, rng.pick([5, 15, max_cards]))
     ncon = rng.randint(1, max_contests)
@@ -90,10 +91,10 @@ def gen_case(rng, max_cards=40, audit_types=None, allow_style_off=True, max_roun
     contests = {cid: W.gen_contest(rng, cid, audit_type, kinds=kinds) for cid in cids}
     # ---- fault plan: which kinds are enabled, at what rate
     fault_free = rng.chance(0.15) if force_fault_free is None else force_fault_free
-    rate = {k: (0.0 if fault_free else rng.pick(RATES)) for k in
+    rate = {k: (0.0 if fault_free else rng.pick(rates or RATES)) for k in
             ("F1", "F2", "F3", "F4", "F5", "F7", "F8", "enc")}
     # ---- ground truth: styles and ballots
-    homogeneous = (not use_style) or rng.chance(0.2)
+    homogeneous = ((not use_style) and homogeneous_when_style_off) or rng.chance(0.2)
     if homogeneous:
         styles = [list(cids)]
     else:
@@ -146,7 +147,7 @@ def gen_case(rng, max_cards=40, audit_types=None, allow_style_off=True, max_roun
             by_id[cv["id"]]["ballot"] = copy.deepcopy(cv["votes"])
     # ---- card bounds
     n_cvrs = len(cvrs)
-    shortfall = len(lost) + (rng.randint(0, 3) if (rng.chance(rate["F8"]) or rng.chance(0.1)) and not fault_free else 0)
+    shortfall = len(lost) + (rng.randint(0, 3) if (rng.chance(rate["F8"]) or rng.chance(p_shortfall)) and not fault_free else 0)
     max_cards_bound = len(cards) + (shortfall - len(lost))
     for cid in cids:
         listing = sum(1 for c in recs if cid in c)
